@@ -8,4 +8,5 @@ const PkgID = "__PKGID__"
 type (
 	S = obj.Obj
 	T = obj.Obj
+	N obj.Obj
 )
